@@ -66,6 +66,7 @@ package core
 //@     invariant forall a string :: has(EngineGlobal.ProxyPool, a) ==> EngineGlobal.ProxyPool[a] != nil
 //@     invariant[nospin@C11] !reached(E)
 //@     invariant[gate@C09] reached(G) ==> (atlabel(G, alldone(cl(c))) ==> (!c.opened || cl(c).count == 0))
+//@     invariant[prefix@C09] reached(G) ==> (atlabel(G, cl(c).count > 0 && mqm(cl(c), 0).Done) ==> (!c.opened || cl(c) == nil || cl(c).head != atlabel(G, cl(c).head)))
 //@   loop 1
 //@     modifies capmem(bs)
 //@     invariant c != nil && c.opened && c.loop != nil && cl(c) != nil && mwf(cl(c)) && cl(c) == atlabel(G, cl(c)) && cl(c).count == gn(c) && c.wcount == gw(c)
@@ -85,8 +86,13 @@ package core
 //@     invariant[flush.count@C01] c.wcount == gw(c) + gn(c)
 //@     invariant[flush.order@C01] forall i int :: 0 <= i && i < gn(c) ==> c.wlog[gw(c) + i] == atlabel(G, mqm(cl(c), i).RspBody)
 
+// eventloop.cread: one client request at a time. A request the handler answers itself (PING, AUTH, QUIT, rejected
+// commands) is recycled and its reply written at once; that is in pipeline order only if no earlier request of the
+// client is still waiting (clause order).
 //@ func eventloop.cread
-//@   props WIP
-//@   requires c != nil && c.loop != nil && EngineGlobal != nil && el.eventHandler != nil && c.opened && c.inMsgQueue != nil && mwf(c.inMsgQueue)
+//@   props C01 C03 C12
+//@   requires c != nil && c.loop != nil && EngineGlobal != nil && el.eventHandler != nil && c.opened
+//@   assume at call listenServer.OnCReact#0 :: server.crok(el.eventHandler, r, c)
+//@   assert[order@C01] at call conn.write#0 :: cl(c).count == 0
 //@   loop 0
-//@     invariant c != nil && c.loop != nil && EngineGlobal != nil && el.eventHandler != nil && c.opened && c.inMsgQueue != nil
+//@     invariant c != nil && c.loop != nil && EngineGlobal != nil && el.eventHandler != nil && c.opened
